@@ -239,6 +239,13 @@ abbrev McaFn := State → Nat → Nat → State × Bool
 -- src/tracked_struct.rs: fn acquire_read_lock
 def lockSlot (s : State) (c : Nat) (sl : Slot) : State := setSlot s c (some { sl with upd := s.cur })
 
+-- src/zalsa.rs: fn memo_table_for → src/tracked_struct.rs: `Slot::memos` — every access to the memo
+-- table of a tracked struct (get / insert / memo_slot) takes the struct's read lock
+def touchMemos (s : State) (c : Nat) : State :=
+  match s.slots c with
+  | some sl => lockSlot s c sl
+  | none => s
+
 -- src/input.rs: fn field / src/function/fetch.rs: fn fetch / src/tracked_struct.rs: fn tracked_field
 def readDep (fe fs : FetchFn) (s : State) : Dep → State × Res
   | .inp i => (s, ⟨⟨(s.inp i).val, none⟩, (s.inp i).ca, (s.inp i).dur⟩)
@@ -362,7 +369,8 @@ def deepEdgesLeaf : List Obs → State → Nat → State × Bool
     else deepEdgesLeaf os s rev
 
 -- src/function/fetch.rs: fn fetch / refresh_memo for `spec(struct of c)`
-def fetchSpec (SB : Nat → Nat → Body) (s : State) (c : Nat) : State × Res :=
+def fetchSpec (SB : Nat → Nat → Body) (s0 : State) (c : Nat) : State × Res :=
+  let s := touchMemos s0 c
   match s.smemos c with
   | none => executeSpec SB s c none
   | some m =>
@@ -379,7 +387,8 @@ def fetchSpec (SB : Nat → Nat → Body) (s : State) (c : Nat) : State × Res :
         else executeSpec SB r.1 c (some m)
 
 -- src/function/maybe_changed_after.rs: fn maybe_changed_after for `spec(struct of c)`
-def mcaSpec (SB : Nat → Nat → Body) (s : State) (c : Nat) (rev : Nat) : State × Bool :=
+def mcaSpec (SB : Nat → Nat → Body) (s0 : State) (c : Nat) (rev : Nat) : State × Bool :=
+  let s := touchMemos s0 c
   match s.smemos c with
   | none => (s, true)
   | some _ =>
@@ -389,7 +398,8 @@ def mcaSpec (SB : Nat → Nat → Body) (s : State) (c : Nat) (rev : Nat) : Stat
 /-! ### node functions -/
 
 -- src/function/specify.rs: fn validate_specified_value (via `mark_validated_output`)
-def markValidatedOutput (s : State) (executor c : Nat) : State :=
+def markValidatedOutput (s0 : State) (executor c : Nat) : State :=
+  let s := touchMemos s0 c
   match s.smemos c with
   | none => s
   | some m =>
